@@ -79,7 +79,7 @@ int main(int argc, char **argv) {
         write_file(g_faildir + "/current.case", case_to_text(c, g_prop, ""));   // survives a crash of the library under test
         std::string bad = judge(s, c, sub, true);
         if (bad.empty() && c09 && prec == 0) { // common-input sub-stream: the same double inputs through the long double interface
-          NumCase c2 = c; c2.prec = 1; st.count("class:common_input_pair"); bad = judge(s, c2, sub + "+common", true); }
+          NumCase c2 = c; c2.prec = 1; if (c2.params.count("Gamma") && c2.sol == "sod_1d") c2.params["mu"] = (c2.params["Gamma"] - 1) / (c2.params["Gamma"] + 1);   /* documented coupling, to working precision */ st.count("class:common_input_pair"); bad = judge(s, c2, sub + "+common", true); }
         if (!bad.empty()) { if (g_shrink_budget < 0) g_shrink_budget = 400; RC_FAIL("violation at " + sub + " " + bad); }
       };
       auto result = rc::detail::checkTestable(prop_fn, md, tp);
